@@ -74,7 +74,11 @@ func renderTemplate(src, dst, pkg string) error {
 // prepareGroup writes the symbolic-mode runtime file and computes the overlay.
 func prepareGroup(g *Group, work string) (*loadedGroup, error) {
 	lg := &loadedGroup{g: g, overlay: map[string]string{}, work: work}
-	hdir := filepath.Join(verifDir, "harness", g.Name)
+	hname := g.HarnessDir
+	if hname == "" {
+		hname = g.Name
+	}
+	hdir := filepath.Join(verifDir, "harness", hname)
 	files, _ := filepath.Glob(filepath.Join(hdir, "*.go"))
 	sort.Strings(files)
 	if len(files) == 0 {
@@ -410,6 +414,9 @@ func cmdCheck(args []string) int {
 				continue
 			}
 			if re != nil && !re.MatchString(h) {
+				continue
+			}
+			if g.Only != "" && !regexp.MustCompile(g.Only).MatchString(h) {
 				continue
 			}
 			tasks = append(tasks, task{lg, h})
